@@ -539,8 +539,11 @@ pub fn run<P: Property>(opts: &RunOpts) -> i32 {
                 results.lock().unwrap().push((shard, st.into_inner(), viol));
             }).unwrap());
         }
-        for h in handles {
-            let _ = h.join();
+        for (i, h) in handles.into_iter().enumerate() {
+            // a shard thread that died (a panic outside every guard) has delivered no result: never take that for "held"
+            if h.join().is_err() {
+                aborted.lock().unwrap_or_else(|e| e.into_inner()).push(format!("shard {i}: thread died from a panic outside the case evaluation"));
+            }
         }
         done.store(true, Ordering::Relaxed);
     });
